@@ -277,6 +277,10 @@ func (m *Machine) builtin(st *State, fr *Frame, instr ssa.Instruction, b *ssa.Bu
 		ref := args[0].(*Term)
 		_, mt := m.mapNames(cc.Args[0].Type())
 		m.guardMap(st, fr, instr, cc.Args[0], true)
+		if !m.guardedMaps[ref.id] && !m.isGhostFn(fr.fn) {
+			mn, _ := m.mapNames(cc.Args[0].Type())
+			m.frameCheck(st, fr, instr, &Ptr{Mem: mn, Ref: ref, Elem: mt.Elem()}, "map delete")
+		}
 		m.mapDelete(st, cc.Args[0].Type(), ref, m.keyTerm(mt, args[1]))
 		return nil
 	case "close":
@@ -340,7 +344,7 @@ type pureResult struct {
 
 // pureCall symbolically evaluates fn (ghost / spec code) on all paths and merges the results.
 func (m *Machine) pureCall(st *State, fn *ssa.Function, args []Value, fvals []Value) []Value {
-	sub := &State{pure: true, opaque: st.opaque, evBase: st.evBase, ghostCells: st.ghostCells, guardSnaps: st.guardSnaps, recDone: st.recDone, heap: cloneHeap(st.heap), locks: st.locks, chanQ: map[int][]chanQuery{}, chanVer: st.chanVer, definable: st.definable, defs: st.defs}
+	sub := &State{pure: true, opaque: st.opaque, evBase: st.evBase, ghostCells: st.ghostCells, guardSnaps: st.guardSnaps, guardVals: st.guardVals, recDone: st.recDone, heap: cloneHeap(st.heap), locks: st.locks, chanQ: map[int][]chanQuery{}, chanVer: st.chanVer, definable: st.definable, defs: st.defs}
 	sub.pc = append([]*Term{}, st.pc...)
 	sub.events = st.events
 	sub.fresh = make([]*freshObj, len(st.fresh))
@@ -840,6 +844,19 @@ func init() {
 		"sameSlice": func(m *Machine, st *State, fr *Frame, instr ssa.Instruction, fn *ssa.Function, args []Value) Value {
 			a, b := args[0].(*Slice), args[1].(*Slice)
 			return m.ctx.And(m.ctx.Eq(a.Arr, b.Arr), m.ctx.Eq(a.Off, b.Off), m.ctx.Eq(a.Len, b.Len))
+		},
+		"guardVal": func(m *Machine, st *State, fr *Frame, instr ssa.Instruction, fn *ssa.Function, args []Value) Value {
+			p := args[0].(*Ptr)
+			if st.opaque != 0 {
+				return m.opaqueEvValue(st, fn, "calleeGuardVal", p.Mem+"."+p.Path, p.Ref, m.ctx.Int(0))
+			}
+			if v, ok := st.guardVals[fmt.Sprintf("%d/%s", p.Ref.id, p.Path)]; ok {
+				return v
+			}
+			return m.Load(st, p)
+		},
+		"closed": func(m *Machine, st *State, fr *Frame, instr ssa.Instruction, fn *ssa.Function, args []Value) Value {
+			return m.chanClosed(st, args[0].(*Term))
 		},
 		"ghostTrue": func(m *Machine, st *State, fr *Frame, instr ssa.Instruction, fn *ssa.Function, args []Value) Value {
 			return m.ctx.T
